@@ -14,6 +14,7 @@ import (
 	"os"
 	"os/exec"
 	"path/filepath"
+	"runtime"
 	"sort"
 	"strings"
 	"sync"
@@ -113,6 +114,27 @@ func c16Worker(args []string) int {
 	mode := args[0]
 	switch mode {
 	case "stress":
+		// watchdog: the whole mode takes seconds; a call that is still blocked inside the shared resolver
+		// after four minutes never returns (a lock that is not released on some path). Reported as a
+		// difference to the call made alone; any other hang is an infrastructure problem.
+		go func() {
+			time.Sleep(4 * time.Minute)
+			buf := make([]byte, 1<<20)
+			buf = buf[:runtime.Stack(buf, true)]
+			blocked := 0
+			for _, g := range strings.Split(string(buf), "\n\n") {
+				if strings.Contains(g, "goast.(*DecoratorResolver).imports") && (strings.Contains(g, "sync.(*Mutex).Lock") || strings.Contains(g, "semacquire")) {
+					blocked++
+				}
+			}
+			if blocked > 0 {
+				fmt.Printf("DIFF hang: %d calls on a shared goast resolver are still blocked on its mutex after four minutes (the same calls made alone return at once)\n", blocked)
+				fmt.Println("STRESS-DONE")
+				os.Exit(0)
+			}
+			fmt.Println("HANG-UNKNOWN")
+			os.Exit(3)
+		}()
 		srcs := c16Sources(16)
 		want := make([]string, len(srcs))
 		for i, s := range srcs {
